@@ -197,6 +197,59 @@ func init() {
 		return "ok applied"
 	}
 
+	// prop.c18.cancel <id> <snapshot> <lastSynced> <now> <cutoff> <k>: the context is cancelled
+	// at its k-th poll inside LoadOnce (between two DBIs, inside the capture or the projection).
+	// Either the load fails and leaves the environment untouched, or it reports success and
+	// then the snapshot has been merged completely: merging it again changes nothing.
+	implOps["prop.c18.cancel"] = func(a []string) string {
+		i := insts[a[0]]
+		before, err := imageOf(i)
+		if err != nil {
+			return "err image"
+		}
+		snap, err := parseSnapArg(a[1])
+		if err != nil {
+			return "err snapshot-arg"
+		}
+		closed := make(chan struct{})
+		close(closed)
+		ctx := &pollCtx{Context: context.Background(), k: int(u64(a[5])), closed: closed, open: make(chan struct{})}
+		w := beginWindow(u64(a[3]))
+		retID, lc, lerr := i.s.LoadOnce(ctx, i.env, "remote", snapshot.Update{Snapshot: snap, NameInfo: snapshot.NameInfo{Kind: snapshot.KindSnapshot}}, header.TxnID(relTxn(i, a[2])))
+		w.end()
+		after, err := imageOf(i)
+		if err != nil {
+			return "err image"
+		}
+		if lerr != nil {
+			rewrittenLine = strings.Join(append([]string{"prop.c18.cancel"}, a...), " ") + " refused"
+			if d := before.equal(after); d != "" {
+				return "FAIL failed-load-left-changes: " + d + " (error class " + txnErrClass(lerr) + ")"
+			}
+			return "ok refused"
+		}
+		rewrittenLine = strings.Join(append([]string{"prop.c18.cancel"}, a...), " ") + " applied"
+		if !lc {
+			i.lastRet = uint64(retID)
+		}
+		// complete? merging the same snapshot once more must not change anything (without a
+		// stale-deletion cut-off: with one, re-merging is not idempotent, finding D12)
+		if u64(a[4]) != 0 {
+			return "ok applied"
+		}
+		snap2, _ := parseSnapArg(a[1])
+		w2 := beginWindow(u64(a[3]) + 1)
+		_, _, err2 := i.s.LoadOnce(context.Background(), i.env, "remote", snapshot.Update{Snapshot: snap2, NameInfo: snapshot.NameInfo{Kind: snapshot.KindSnapshot}}, header.TxnID(lastTxnID(i.env)))
+		w2.end()
+		after2, err := imageOf(i)
+		if err != nil || err2 != nil {
+			return "FAIL second-load-failed"
+		}
+		if d := after.equal(after2); d != "" {
+			return "FAIL success-reported-for-a-partial-merge: " + d
+		}
+		return "ok applied"
+	}
 	// prop.c10.reload <id> <snapshot> <now1> <now2>: merging the same snapshot a second time,
 	// with no local change in between, changes nothing; without the dupsort hack it does not
 	// even record an LMDB transaction, and it never reports a local change.
@@ -810,6 +863,28 @@ func hasMarker(img *envImage, target string, k []byte) bool {
 		}
 	}
 	return false
+}
+
+// pollCtx: a context that turns out cancelled from its k-th poll on
+type pollCtx struct {
+	context.Context
+	calls, k     int
+	closed, open chan struct{}
+}
+
+func (c *pollCtx) Done() <-chan struct{} {
+	c.calls++
+	if c.calls > c.k {
+		return c.closed
+	}
+	return c.open
+}
+
+func (c *pollCtx) Err() error {
+	if c.calls > c.k {
+		return context.Canceled
+	}
+	return nil
 }
 
 func shadowVer(sh *dbiImage, k []byte) (ver, bool) {
